@@ -19,20 +19,30 @@ def h_event(t, part):
     asyncio_ = part['async']
     who = part['who']           # fn / none / catchall / cls
     calls = []
-    coro = asyncio_ and t.bool()
+    coro = asyncio_ and (True if part.get('overlap') else t.bool())
     retform = t.choice(4)
     x = t.int(-3, 3)
     y = t.str(2)
     ret = [None, x, (x, y), [x, y]][retform]
 
+    overlap = part.get('overlap', False)
+    nested = {'done': False}
+
     def mk(tag, prefix=0):
         if coro:
             async def f(*a):
                 calls.append((tag, a))
+                if overlap and tag != 'second':
+                    await miniloop.checkpoint('handler')     # suspended: the next message is handled meanwhile
                 return ret
         else:
             def f(*a):
                 calls.append((tag, a))
+                if overlap and tag != 'second' and not nested['done']:
+                    # engine.io runs every incoming message in its own thread: the next one is handled while this
+                    # handler is still running
+                    nested['done'] = True
+                    w.recv(w.P(packet.EVENT, data=['second', 5], namespace=ns, id=8).encode())
                 return ret
         return f
     ns = NSS[t.choice(2)]
@@ -55,7 +65,12 @@ def h_event(t, part):
             w.c.register_namespace(type('N', (base,), {'on_ev': on_ev})(ns))
         # an unrelated handler on the other namespace must never run
         w.c.on('ev', mk('other-namespace'), namespace=NSS[1 - NSS.index(ns)])
+        if overlap:
+            w.c.on('second', mk('second'), namespace=ns)
+            w.eio.task_per_message = True
         w.connect(NSS)
+        if overlap and asyncio_:
+            w.finish()
     idk = t.choice(4)
     eid = None if idk == 0 else 0 if idk == 1 else t.int(1, 3) if idk == 2 else BIG
     nargs = t.choice(3)
@@ -78,10 +93,26 @@ def h_event(t, part):
             w.recv(w.P.inject(type=packet.EVENT, namespace=ns, id=eid, data=['ev'] + args))
         else:
             w.send(w.P(packet.EVENT, data=['ev'] + args, namespace=ns, id=eid))
+    if overlap and asyncio_:
+        w.recv(w.P(packet.EVENT, data=['second', 5], namespace=ns, id=8).encode())
     w.finish()
     if w.eio.contained:
         return Fail('event:exception:%s' % type(w.eio.contained[0][1]).__name__, repr(w.eio.contained[0]))
     t.reached('event')
+    if overlap and who != 'none':
+        sec = [c for c in calls if c[0] == 'second']
+        calls[:] = [c for c in calls if c[0] != 'second']
+        if sec != [('second', (5,))]:
+            return Fail('event:overlapping-message-lost', 'a message that arrived while the handler was running: %r' % (sec,))
+        out2 = [p for p in w.take()]
+        ack8 = [p for p in out2 if not isinstance(p, tuple) and p.id == 8]
+        if len(ack8) != 1:
+            return Fail('event:overlapping-message-not-acknowledged', repr([worlds.pk(p) for p in out2]))
+        w.pos -= len([p for p in out2 if p not in ack8]) and 0
+        rest = [p for p in out2 if p not in ack8]
+        w._pending_out = rest
+    elif overlap:
+        w._pending_out = [p for p in w.take() if isinstance(p, tuple) or p.id != 8]
     t.note(part, 'id', idk, 'ret', retform)
     exp_calls = {'fn': [('fn', tuple(args))], 'catchall': [('catchall', ('ev',) + tuple(args))],
                  'cls': [('cls', tuple(args))], 'none': []}[who]
@@ -89,7 +120,9 @@ def h_event(t, part):
         return Fail('event:invocations:%s:%d' % (who, len(calls)), 'calls=%r' % (calls,))
     if exp_calls and not (calls[0][0] == exp_calls[0][0] and calls[0][1] == exp_calls[0][1]):
         return Fail('event:arguments:%s' % who, 'expected %r got %r' % (exp_calls, calls))
-    out = w.take()
+    out = getattr(w, '_pending_out', None)
+    if out is None:
+        out = w.take()
     if eid is None:
         if out:
             return Fail('event:ack-without-id', repr([worlds.pk(p) for p in out]))
@@ -115,13 +148,16 @@ def h_hist(t, part):
     fired = []
 
     def mkcb(tag):
-        if asyncio_ and tag in ('cb1', 'cb3', 'final'):
+        if asyncio_ and tag in ('cb0', 'cb1', 'cb3', 'final'):
             async def cb(*a):
                 fired.append((tag, a))
+                await miniloop.checkpoint('callback')      # suspended while later messages are handled
         else:
             def cb(*a):
                 fired.append((tag, a))
         return cb
+    if asyncio_:
+        w.eio.task_per_message = True
 
     def emit_cb(ns, tag):
         w.call(w.c.emit('q', 1, namespace=ns, callback=mkcb(tag)))
@@ -166,6 +202,10 @@ def h_hist(t, part):
                 w.recv(b'x')
             else:
                 w.recv(w.P.inject(type=packet.ACK, namespace=ns, id=i, data=data))
+            if asyncio_:
+                # the message tasks run up to their first suspension (inside a coroutine callback, if any)
+                lp = w.drv.loop
+                lp.run_until(lambda: not lp.ready)
             if w.eio.contained:
                 return Fail('ack:exception:%s:id=%s' % (type(w.eio.contained[-1][1]).__name__,
                                                         'zero' if i == 0 else 'other'),
@@ -295,20 +335,22 @@ NOPS = 2 + 2 + 6
 
 
 def hist_parts(tier):
-    n = 4 if tier == 'quick' else 5
+    n = 3 if tier == 'quick' else 5
     return [{'async': a, 'n': n, 'first': f} for a in (False, True) for f in range(NOPS)]
 
 
 def event_parts(tier):
-    return [{'async': a, 'who': wh, 'binary': b} for a in (False, True) for wh in ('fn', 'none', 'catchall', 'cls')
-            for b in (False, True)]
+    out = [{'async': a, 'who': wh, 'binary': b} for a in (False, True) for wh in ('fn', 'none', 'catchall', 'cls')
+           for b in (False, True)]
+    out += [{'async': a, 'who': 'fn', 'binary': b, 'overlap': True} for a in (False, True) for b in (False, True)]
+    return out
 
 
 CHECKS = [
-    dict(name='event', fn=h_event, parts=event_parts, budget={'quick': 60, 'thorough': 200}),
-    dict(name='history', fn=h_hist, parts=hist_parts, budget={'quick': 60, 'thorough': 900}),
-    dict(name='call-threaded', fn=h_call_sync, parts=[{}], budget={'quick': 40, 'thorough': 120}),
-    dict(name='call-asyncio', fn=h_call_async, parts=[{}], budget={'quick': 40, 'thorough': 120}),
+    dict(name='event', fn=h_event, parts=event_parts, budget={'quick': 180, 'thorough': 200}),
+    dict(name='history', fn=h_hist, parts=hist_parts, budget={'quick': 180, 'thorough': 900}),
+    dict(name='call-threaded', fn=h_call_sync, parts=[{}], budget={'quick': 180, 'thorough': 120}),
+    dict(name='call-asyncio', fn=h_call_async, parts=[{}], budget={'quick': 180, 'thorough': 120}),
 ]
 
 META = dict(
@@ -316,12 +358,13 @@ META = dict(
                 '_generate_ack_id, against a reference table of outstanding (namespace, id) -> callback.',
     bounds={'quick': 'event: one EVENT/BINARY_EVENT on / or /a, id in {None, 0, symbolic 1..3, 10^20}, 0..2 symbolic '
                      'arguments (int, str<=2 or bytes<=2), responsible party in {function, nobody, catch-all, class '
-                     'namespace}, sync/coroutine, return in {None, scalar, tuple, list}; history: 4 operations from '
+                     'namespace}, sync/coroutine, return in {None, scalar, tuple, list}; history: 3 operations from '
                      '{emit with callback, plain emit, ACK/BINARY_ACK with symbolic id 0..3, 10^20, or 0 through the '
                      'codec} on 2 namespaces then one emit-with-callback per namespace; call(): up to 2 environment '
                      'actions during the wait / all miniloop schedules',
             'thorough': 'history of 5 operations'},
-    outside=['several events in sequence (order is C02)', 'ids above 3 other than 10^20'],
+    outside=['several events in sequence (order is C02)', 'ids above 3 other than 10^20', 'real threads for the threaded '
+             'client\'s thread-per-message delivery: modelled as re-entrant delivery while a handler runs'],
     stubs=['engine.io client -> vf.stubs.FakeEioClient/FakeAEioClient (messages handled inline in arrival order)',
            'JSON text -> TokJson', 'asyncio -> vf.miniloop', 'Event.wait -> vf.waithook',
            'packets with symbolic ids injected at Packet.decode'],
